@@ -279,6 +279,23 @@ func (s *Sim) compareWithClone(c *Sim) {
 // nextOp picks the next random op of a history.
 func (s *Sim) nextOp() Op {
 	rng := s.rng
+	// property focus: make the operations the property is about more frequent
+	switch focus {
+	case "C07":
+		if rng.Intn(12) == 0 {
+			pn := []string{"pa", "pb"}[rng.Intn(2)]
+			return Op{Kind: "poolset", Str: pn, Idx: rng.Intn(4), Flag: rng.Intn(3) == 0}
+		}
+	case "C09":
+		switch rng.Intn(16) {
+		case 0:
+			return Op{Kind: "reload", Topo: s.mutateTopo()}
+		case 1:
+			return Op{Kind: "reserve"}
+		case 2:
+			return Op{Kind: "unreserve"}
+		}
+	}
 	for tries := 0; tries < 50; tries++ {
 		x := rng.Intn(100)
 		switch {
